@@ -12,3 +12,7 @@ from . import ext_returns  # noqa: E402,F401  (C07: lax.scan fold, induction sch
 from . import ext_cmaes  # noqa: E402,F401  (C16: argsort, linalg.norm, log1p, param-tree leaves, sum proof rules)
 from . import ext_ensemble  # noqa: E402,F401  (C17: stacked nnx modules / vmap over modules, split-tree.map-merge, random choice/permutation, nnx.scan)
 from . import ext_losses  # noqa: E402,F401  (C03: row-wise map stub, exact nnx.scan unrolling for concrete lengths) - keep after ext_ensemble
+from . import ext_serialize  # noqa: E402,F401  (C19: pickle / file / orbax restore)
+from . import ext_sched  # noqa: E402,F401  (C11: RecordEpisodeStatistics queues, mutable per-task arrays, Generator.choice w/o replacement, sets of task ids)
+from . import ext_loops  # noqa: E402,F401  (C01/C11: jnp.empty, collections.deque as a window over an append-only log)
+from . import ext_vecenv  # noqa: E402,F401  (C01/C11: gymnasium vector environments with per-environment episode state and autoreset modes)
